@@ -7,6 +7,7 @@
 //!   ack <file>         run interleavings of done()/poll() on a real acknowledgement
 //!   stress <args>      free-running multi-threaded run with a watchdog
 //!   order <args>       free-running per-thread program-order check with a tiny command queue
+//!   ledger <file>      the real CacheWeight stepped one ledger action at a time (Ledger.v / LedgerUpd.v)
 //!   stall <millis>     a caller really blocked in front of the full command queue for a while
 mod json;
 mod kernels;
@@ -17,6 +18,7 @@ mod stress;
 mod stress2;
 mod order;
 mod stall;
+mod ledger;
 
 use std::env;
 
@@ -35,6 +37,7 @@ fn main() {
         "stress2" => stress2::run(&args[2..]),
         "order" => order::run(&args[2..]),
         "stall" => stall::run(&args[2..]),
+        "ledger" => ledger::run_file(&args[2]),
         other => {
             eprintln!("unknown sub-command {}", other);
             std::process::exit(2);
